@@ -91,6 +91,9 @@ pub enum Delivery {
     /// a re-signed copy of node i with a bumped treasury: another hash, same parent and height,
     /// indexed like any block and refused only when it is validated for the longest chain
     InvalidSibling(usize),
+    /// a re-signed copy of node i whose id is one too high (parent's id + 2): on the longest
+    /// chain it would leave a hole in the by-height index
+    IdSkip(usize),
 }
 
 fn describe(order: &[Delivery]) -> String {
@@ -101,6 +104,7 @@ fn describe(order: &[Delivery]) -> String {
             Delivery::Duplicate(i) => format!("{}dup", i),
             Delivery::BadSignature(i) => format!("{}badsig", i),
             Delivery::InvalidSibling(i) => format!("{}invalid-sibling", i),
+            Delivery::IdSkip(i) => format!("{}id-skip", i),
         })
         .collect::<Vec<_>>()
         .join(",")
@@ -137,7 +141,7 @@ pub fn delivery_class(tree: &Tree, order: &[Delivery]) -> String {
                     extras.push("badsig")
                 }
             }
-            Delivery::InvalidSibling(i) => {
+            Delivery::InvalidSibling(i) | Delivery::IdSkip(i) => {
                 if !seen[tree.parents[*i - 1]] {
                     parent_first = false;
                 }
@@ -182,7 +186,7 @@ pub async fn run_case(b: &mut Builder, tree: &Tree, order: &[Delivery], params: 
         let (before_id, before_hash) = node.tip().await;
         {
             let idx = match d {
-                Delivery::Block(i) | Delivery::Duplicate(i) | Delivery::BadSignature(i) | Delivery::InvalidSibling(i) => *i,
+                Delivery::Block(i) | Delivery::Duplicate(i) | Delivery::BadSignature(i) | Delivery::InvalidSibling(i) | Delivery::IdSkip(i) => *i,
             };
             let parent_hash = tree.hashes[tree.parents[idx - 1]];
             let held = node.chain.read().await.blocks.contains_key(&parent_hash);
@@ -210,6 +214,14 @@ pub async fn run_case(b: &mut Builder, tree: &Tree, order: &[Delivery], params: 
                 blk.treasury += 1;
                 crate::props::c04::reseal(&mut blk, &creator, false);
                 rep.count("invalid_sibling_deliveries");
+                block_bytes(&blk)
+            }
+            Delivery::IdSkip(i) => {
+                let mut blk = b.store.get(&tree.hashes[*i]).block.clone();
+                let creator = b.actors[0].clone();
+                blk.id += 1;
+                crate::props::c04::reseal(&mut blk, &creator, false);
+                rep.count("id_skipping_deliveries");
                 block_bytes(&blk)
             }
         };
@@ -360,13 +372,14 @@ pub async fn run(ctx: &Ctx, rep: &mut Report) {
                 // injected duplicates / invalid copies / withheld blocks at every position
                 let base: Vec<usize> = (1..=n).collect();
                 for pos in 0..=n {
-                    for kind in 0..4 {
+                    for kind in 0..5 {
                         let mut order: Vec<Delivery> = base.iter().map(|i| Delivery::Block(*i)).collect();
                         let target = 1 + (pos + kind) % n;
                         match kind {
                             0 => order.insert(pos, Delivery::Duplicate(target)),
                             1 => order.insert(pos, Delivery::BadSignature(target)),
                             3 => order.insert(pos, Delivery::InvalidSibling(target)),
+                            4 => order.insert(pos, Delivery::IdSkip(target)),
                             _ => {
                                 if pos < n {
                                     order.remove(pos);
@@ -447,7 +460,7 @@ pub async fn run(ctx: &Ctx, rep: &mut Report) {
             for _ in 0..rng.below(4) {
                 let pos = rng.below(order.len() as u64 + 1) as usize;
                 let t = 1 + rng.below(n as u64) as usize;
-                order.insert(pos, Delivery::InvalidSibling(t));
+                order.insert(pos, if rng.chance(1, 4) { Delivery::IdSkip(t) } else { Delivery::InvalidSibling(t) });
             }
             rep.nontrivial(&format!("rand|{:?}|{}", parents, describe(&order)));
             run_case(&mut b, &tree, &order, &params, rep, "C03").await;
